@@ -33,7 +33,7 @@ EXPLANATION = (
     "JobOutput(exitcode=...) must include both."
 )
 ASSUMPTIONS = ["subprocess.run executes the given argv in cwd with env and reports the child's return code"]
-FLOORS = {"C17.R1": 1, "C17.R2": 7, "C17.R3": 1, "C17.R4": 1}
+FLOORS = {"C17.R5": 4, "C17.R1": 1, "C17.R2": 7, "C17.R3": 1, "C17.R4": 1}
 
 
 def run(chk):
@@ -44,6 +44,7 @@ def run(chk):
     r2_runner(chk, rl)
     r3_exit(chk, rl)
     r4_recorded(chk, rl, "C17.R4")
+    r5_job_codec(chk)
 
 
 def r1_descriptor(chk):
@@ -212,3 +213,29 @@ def r4_recorded(chk, rl, rule):
     chk.decide(has_fail and has_files, rule, key, rl.where(out[0]), "JobOutput.exitcode depends on the failure position and on the returned files",
                f"JobOutput(exitcode={norm(ec)}) does not depend on " + " / ".join(x for x, ok in (("the failure position", has_fail), ("the set of returned files", has_files)) if not ok)
                + ": when a requested file is missing the process exits 1 but records exitcode 0, and jobmap caches the run as a success and never repeats it")
+
+
+def r5_job_codec(chk):
+    """What is hashed is what is dumped is what is loaded: JobInput.hash digests msgpack(attrs.asdict(self)); dump must write that
+    very mapping and load must rebuild the object from it, otherwise the hash the runner records (of the *loaded* job) differs from
+    the caller's and every cached output looks stale."""
+    prog = chk.prog
+    for cname in ("JobInput", "JobOutput"):
+        ci = prog.cls(f"{JOB}:{cname}")
+        d = prog.method(ci, "dump")
+        l = prog.method(ci, "load")
+        chk.require(d is not None and l is not None, f"{cname}.dump/load vanished")
+        chk.analysed(d, l)
+        dc = [c for c in walk_no_nested(d.node) if isinstance(c, ast.Call) and call_name(c) in ("msgpack.dump", "msgpack.dumps", "msgpack.pack", "msgpack.packb")]
+        okd = len(dc) == 1 and norm(dc[0].args[0]) == "attrs.asdict(self)" and not [k for k in dc[0].keywords if k.arg not in (None,)]
+        chk.decide(okd, "C17.R5", f"{d.key}:dumps-asdict-unmodified", d.where(dc[0] if dc else None), "msgpack.dump(attrs.asdict(self), f)",
+                   f"{cname}.dump serialises `{norm(dc[0].args[0]) if dc else None}`, not attrs.asdict(self) as is: the object read back differs from the one written"
+                   + (" and hashes differently, so input_hash never matches the caller's hash" if cname == "JobInput" else ""))
+        lc = [r for r in walk_no_nested(l.node) if isinstance(r, ast.Return)]
+        okl = len(lc) == 1 and norm(lc[0].value) in ("cls(**msgpack.load(f))", "cls(**msgpack.unpack(f))", "cls(**msgpack.loads(f.read()))")
+        chk.decide(okl, "C17.R5", f"{l.key}:rebuilds-from-mapping", l.where(lc[0] if lc else None), "cls(**msgpack.load(f))", f"{cname}.load does not rebuild the object from the stored mapping as is")
+    h = prog.func(f"{JOB}:JobInput.hash", "getter")
+    chk.analysed(h)
+    hc = [c for c in walk_no_nested(h.node) if isinstance(c, ast.Call) and call_name(c) in ("msgpack.dumps", "msgpack.packb")]
+    chk.decide(len(hc) == 1 and norm(hc[0].args[0]) == "attrs.asdict(self)", "C17.R5", f"{h.key}:digest-of-asdict", h.where(), "hash = digest(msgpack.dumps(attrs.asdict(self)))",
+               "JobInput.hash does not digest the same mapping that dump writes")
